@@ -26,6 +26,7 @@ CONSTANTS Impl,            \* "ref" | "asis" | sanity variants "droppm" | "snres
           AllowPl, AllowExcl, AllowReuse, AllowLin3, AllowDrop,
           AllowBnShare,    \* BatchNorm sharing patterns: one BN object after two layers, own BN at a reuse site, two BNs in a row
           PlainOps,        \* subset of {"relu", "pool", "flat", "add"} offered by Grow
+          Biases,          \* subset of BOOLEAN: bias options of conv / linear layers
           AllowFindings,   \* FALSE: Conv is only taken on SupportedImport(arch, cfg)
           MaxHist          \* length of the call history after the conversion
 
@@ -109,19 +110,19 @@ BnShareVariants(a, nd) ==
 FitP(a, cn, w, dwc) == {p \in NF(a) : Fits(a, p, cn, w, dwc)}
 BaseCandidates(a, m) ==
     UNION {UNION {{Node("conv", <<p>>, w, FALSE, ConvPreset(cn, a.dim), b, BnPreset(bn), px[1], px[2], 0, <<>>, NoSno, "") :
-                      p \in FitP(a, cn, w, FALSE), b \in BOOLEAN, bn \in Bns,
+                      p \in FitP(a, cn, w, FALSE), b \in Biases, bn \in Bns,
                       px \in {x \in PlEx(m) : ~(x[1] /\ ConvPreset(cn, a.dim).grp > 1)}} : w \in Widths} : cn \in ConvVars}
     \cup UNION {{Node("conv", <<p>>, 0, TRUE, ConvPreset(cn, a.dim), b, BnPreset(bn), pl, FALSE, 0, <<>>, NoSno, "") :
-                      p \in FitP(a, cn, 0, TRUE), b \in BOOLEAN, bn \in Bns, pl \in Pl(m)} : cn \in ConvVars \ {"grp2"}}
+                      p \in FitP(a, cn, 0, TRUE), b \in Biases, bn \in Bns, pl \in Pl(m)} : cn \in ConvVars \ {"grp2"}}
     \cup {Node("lin", <<p>>, w, FALSE, NoConv, b, BnPreset(bn), px[1], px[2], 0, <<>>, NoSno, "") :
-        p \in T(a) \ NF(a), w \in Widths, b \in BOOLEAN, bn \in Bns, px \in PlEx(m)}
+        p \in T(a) \ NF(a), w \in Widths, b \in Biases, bn \in Bns, px \in PlEx(m)}
     \cup (IF AllowLin3 /\ a.dim = 1
           THEN {Node("lin3", <<p>>, w, FALSE, NoConv, b, BnPreset("none"), FALSE, ex, 0, <<>>, NoSno, "") :
-                   p \in NF(a), w \in Widths, b \in BOOLEAN, ex \in Ex(m)}
+                   p \in NF(a), w \in Widths, b \in Biases, ex \in Ex(m)}
           ELSE {})
     \cup (IF m = "SN" THEN {Node("conv", <<p>>, w, FALSE, [NoConv EXCEPT !.k = sn[1].k, !.pad = IF a.dim = 1 THEN "same" ELSE "int"],
                                  b, BnPreset("none"), FALSE, FALSE, 0, sn, SnoPreset(so), "") :
-                               p \in NF(a), w \in Widths, b \in BOOLEAN, sn \in SNVariants,
+                               p \in NF(a), w \in Widths, b \in Biases, sn \in SNVariants,
                                so \in SnoVars}
           ELSE {})
     \cup (IF AllowReuse
